@@ -370,7 +370,8 @@ def enumerate_jobs(tier, seed):
 
     # generated fonts (table shapes the test data lacks), reopened lazily and recompiled
     gens = [e for e in fonts if e["id"].startswith("gen:")]
-    for e in _pick(gens, len(gens) if thorough else 20, rnd):
+    pinned = [e for e in gens if corpus.gen_spec(e["id"]).get("pinned")]  # the fonts every run has (gen_font.pinned_specs)
+    for e in _pick(gens, len(gens) if thorough else 20, rnd, must=pinned):
         J.append(dict(pipe="recompile", name="recompile:" + e["id"], fid=e["id"], touch="all", recalcTimestamp=rnd.random() < 0.5, recalcBBoxes=rnd.random() < 0.7, flavor=rnd.choice([None, None, "woff"]), cost=2 * e["size"]))
 
     # -- TTX import
